@@ -384,7 +384,26 @@ func cmdCheck(args []string) int {
 	if len(ruleRes) > 0 {
 		usedSet["structural rules decided by enumeration over go/ssa (writers of a field, callers incl. CHA dispatch, method sets)"] = true
 	}
-	if len(units) == 0 && len(lemmaRes) == 0 && len(ruleRes) == 0 {
+	bounded := runBounded(*verifDir, *repo, *prop)
+	for _, b := range bounded {
+		if strings.HasPrefix(b.Result, "violation") || b.Result == "error" {
+			violations++
+			h := sha1.Sum([]byte("bounded::" + b.Name))
+			rp := filepath.Join(*verifDir, "replays", fmt.Sprintf("%s-%x.json", *prop, h[:6]))
+			rep := map[string]interface{}{"property": *prop, "obligation": "bounded::" + b.Name, "kind": "bounded stand-in", "status": b.Result, "stands_in_for": b.StandsInFor, "bound": b.Bound, "replay_output": b.output}
+			suffix := ""
+			if b.Result == "error" {
+				suffix = " no-failing-input-found"
+			} else {
+				rep["replay_confirmed"] = true
+			}
+			data, _ := json.MarshalIndent(rep, "", " ")
+			os.WriteFile(rp, data, 0644)
+			lines = append(lines, fmt.Sprintf("VIOLATION property=%s replay=%s%s", *prop, rp, suffix))
+			fmt.Fprintf(os.Stderr, "  failed bounded stand-in %s: %s\n", b.Name, b.Result)
+		}
+	}
+	if len(units) == 0 && len(lemmaRes) == 0 && len(ruleRes) == 0 && len(bounded) == 0 {
 		lines = append(lines, fmt.Sprintf("VIOLATION property=%s replay=%s no-failing-input-found", *prop, filepath.Join(*verifDir, "replays", *prop+"-no-obligations.json")))
 		os.WriteFile(filepath.Join(*verifDir, "replays", *prop+"-no-obligations.json"), []byte(`{"error":"no function carries a contract clause for this property: zero obligations generated"}`), 0644)
 		violations++
@@ -431,6 +450,7 @@ func cmdCheck(args []string) int {
 			"samples": samples, "backends": backends,
 			"vacuity":               map[string]int{"smoke_probes_run": smokeRun, "smoke_probes_provable": smokeBad},
 			"known_findings_matched": knownHit,
+			"bounded_stand_ins":      bounded,
 			"constructs_abstracted": unsup,
 			"load_seconds":          round3(p.loadSecs),
 			"queries":               queryCount,
